@@ -72,7 +72,7 @@ Jobs_C11 ==
    \o S2Q({Call("atan2", <<"fx", "fx">>, <<y, x>>) : y \in A2Lm, x \in A2Lm})
    \o <<RandPair("atan_pair", NR(3000, 200000), Seed + 5, 47, "neg", Phi, 0), RandPair("atan_pair", NR(4000, 300000), Seed + 6, 47, "delta", Phi, 0),
         RandPair("atan_pair", NR(3000, 200000), Seed + 7, 22, "delta", Phi, 0)>>
-   \o <<RandB("atan2", <<"fx", "fx">>, NR(3000, 300000), Seed + 1, 47), RandB("atan2", <<"fx", "fx">>, NR(1500, 100000), Seed + 2, 30),
+   \o <<[RandM("atan2", <<"fx", "fx">>, NR(2000, 100000), Seed + 8, "related") EXCEPT !.maxbits = 47], RandB("atan2", <<"fx", "fx">>, NR(3000, 300000), Seed + 1, 47), RandB("atan2", <<"fx", "fx">>, NR(1500, 100000), Seed + 2, 30),
         RandB("atan2", <<"fx", "fx">>, NR(1500, 100000), Seed + 3, 18), RandB("atan", <<"fx">>, NR(5000, 200000), Seed + 4, 47)>>
 
 (* ---- C12 ------------------------------------------------------------------------------------------ *)
@@ -93,7 +93,7 @@ HyLm == PM({Z0, Z1, ZN(2), ZN(3), ZN(255), ZN(65535), ZN(65536), ZN(65537), ZN(3
 Jobs_C14 ==
    S2Q({Call("hypot_sym", <<"fx", "fx">>, <<a, b>>) : a \in HyLm, b \in HyLm})
    \o FlatSeq([i \in 1..(IF Thorough THEN 256 ELSE 25) |-> S2Q({Call("hypot", <<"fx", "fx">>, <<ZN(i - 1), ZN(j)>>) : j \in 0..(IF Thorough THEN 255 ELSE 24)})])
-   \o <<RandB("hypot", <<"fx", "fx">>, NR(12000, 400000), Seed + 1, 47), RandB("hypot", <<"fx", "fx">>, NR(8000, 200000), Seed + 2, 31),
+   \o <<[RandM("hypot_sym", <<"fx", "fx">>, NR(3000, 100000), Seed + 6, "related") EXCEPT !.maxbits = 47], RandB("hypot", <<"fx", "fx">>, NR(10000, 400000), Seed + 1, 47), RandB("hypot", <<"fx", "fx">>, NR(8000, 200000), Seed + 2, 31),
         RandB("hypot", <<"fx", "fx">>, NR(5000, 200000), Seed + 3, 17), RandB("hypot_sym", <<"fx", "fx">>, NR(4000, 100000), Seed + 4, 47),
         RandB("hypot_sym", <<"fx", "fx">>, NR(2000, 100000), Seed + 5, 30)>>
 
